@@ -924,6 +924,111 @@ impl CancellationToken {
     }
 }
 
+/// Verification hook (guard: cfg(any(kani, weechess_verif))): a public wrapper over the private
+/// transposition table types (construction as tables x buckets, insert, find, entries, max_entries).
+/// Every method forwards to the real implementation; `Entry` mirrors the private entry type.
+#[cfg(any(kani, weechess_verif))]
+pub mod verif_hooks {
+    use super::*;
+
+    #[derive(Clone, Copy, Debug, PartialEq, Eq)]
+    pub struct Entry {
+        /// 0 exact, 1 upper bound, 2 lower bound
+        pub kind: u8,
+        pub performed_move: Move,
+        pub depth: usize,
+        pub max_depth: usize,
+        pub evaluation: i32,
+    }
+
+    impl Entry {
+        fn to_real(self) -> TranspositionEntry {
+            TranspositionEntry {
+                kind: match self.kind {
+                    0 => EvaluationKind::Exact,
+                    1 => EvaluationKind::UpperBound,
+                    _ => EvaluationKind::LowerBound,
+                },
+                performed_move: self.performed_move,
+                depth: self.depth,
+                max_depth: self.max_depth,
+                evaluation: Evaluation::from(self.evaluation),
+            }
+        }
+
+        fn from_real(e: &TranspositionEntry) -> Self {
+            Self {
+                kind: match e.kind {
+                    EvaluationKind::Exact => 0,
+                    EvaluationKind::UpperBound => 1,
+                    EvaluationKind::LowerBound => 2,
+                },
+                performed_move: e.performed_move,
+                depth: e.depth,
+                max_depth: e.max_depth,
+                evaluation: e.evaluation.into(),
+            }
+        }
+    }
+
+    pub struct Table(TranspositionTableAccess);
+
+    impl Table {
+        pub const BUCKET_SIZE: usize = TranspositionBucket::BUCKET_SIZE;
+
+        pub fn new(tables: usize, buckets_per_table: usize) -> Self {
+            Self(TranspositionTableAccess::with_tables(
+                (0..tables)
+                    .map(|_| TranspositionTable::with_bucket_count(buckets_per_table))
+                    .collect(),
+            ))
+        }
+
+        /// One table with one bucket whose slots are given directly (for one-step checks from an
+        /// arbitrary bucket state); `used_slots` is set to the number of occupied slots.
+        pub fn from_slots(slots: [Option<(Hash, Entry)>; TranspositionBucket::BUCKET_SIZE]) -> Self {
+            let mut bucket = TranspositionBucket::empty();
+            let mut used = 0;
+            for (i, s) in slots.iter().enumerate() {
+                if let Some((h, e)) = s {
+                    bucket.entries[i] = Some((*h, e.to_real()));
+                    used += 1;
+                }
+            }
+
+            Self(TranspositionTableAccess::with_tables(vec![
+                TranspositionTable {
+                    buckets: vec![bucket],
+                    used_slots: used,
+                },
+            ]))
+        }
+
+        /// Raw view of slot `i` of bucket `b` in table `t`.
+        pub fn slot(&self, t: usize, b: usize, i: usize) -> Option<(Hash, Entry)> {
+            self.0.tables[t].read().unwrap().buckets[b].entries[i]
+                .as_ref()
+                .map(|(h, e)| (*h, Entry::from_real(e)))
+        }
+
+        pub fn insert(&self, hash: Hash, entry: Entry) {
+            self.0.insert(hash, entry.to_real())
+        }
+
+        pub fn find(&self, hash: Hash) -> Option<Entry> {
+            self.0.find(hash).map(|e| Entry::from_real(&e))
+        }
+
+        pub fn entries(&self) -> usize {
+            self.0.entries()
+        }
+
+        pub fn max_entries(&self) -> usize {
+            self.0.max_entries()
+        }
+    }
+}
+
 #[cfg(test)]
 mod tests {
     use super::*;
